@@ -10,6 +10,14 @@
 (*     a*b / b*a, multiplicity twins a+a+b / a+b+b, subterms nested in     *)
 (*     repeated subterms, pre-existing wrappers with and without prefix    *)
 (*     and scope, wrappers of variables and constants, nested wrappers);   *)
+(*   - round 2: a repeated operation in EVERY child position of EVERY node *)
+(*     kind (Puts over HostTemplates: function / parameter / keyword        *)
+(*     positions of calls, a call in the function position of a call,      *)
+(*     aggregate / index / index-tuple of subscripts, lookups, condition    *)
+(*     and branches of conditionals, operands of comparisons, logical,     *)
+(*     bitwise, min / max, every operand position of the seven operation   *)
+(*     kinds, wrapper children) with leaves as siblings, as "host + bare   *)
+(*     repeat" and as "two hosts with other siblings";                     *)
 (*   - every cell (helper, argument class, prefix, scope) of the two wrap  *)
 (*     helpers, object arrays and multivectors included;                   *)
 (* checks ON THE MODEL for every list                                      *)
